@@ -136,6 +136,9 @@ func (c08) RunCase(c *fw.Ctx, rng *fw.RNG, batch, i int) {
 			c.Count("values_checked", 1)
 			c.Seen(fw.Mix(fw.HashString(schemagen.Describe(ts)), fw.HashString(t.Name), tv.Hash()), tv.Stats().MaxDepth >= 2)
 			typedmon.CheckViews(c, eng, ts, t, tv, rng)
+			if k < 3 {
+				typedmon.CheckOtherLevelNames(c, eng, ts, t, tv)
+			}
 			if c.WantSample() && k == 0 && tv.Stats().Nodes > 4 && tv.Stats().Nodes < 20 {
 				r, _ := ts.ReprOf(t, tv)
 				c.Sample(map[string]any{"type": t.Name, "kind": typeKindName(t), "type_view": tv.Dump(), "representation": r.Dump()})
